@@ -14,6 +14,9 @@ static int key_id (ppointer p) { int i; for (i = 1; i <= nk; i++) if ((uintptr_t
 /* the all-ones pattern is reported as -1 whether it is the not-found marker or a stored value (model value id 9 by convention) */
 static int val_id (ppointer p) { int i; if ((uintptr_t) p == (uintptr_t) -1) return -1; for (i = 1; i <= nv; i++) if ((uintptr_t) p == vmap[i]) return i; return -2; }
 static int cmp_int (const void *a, const void *b) { return *(const int *) a - *(const int *) b; }
+/* the comparator decides alone which stored values are accepted (0 = accept): one that accepts nothing, not even an identical pointer, and one that accepts everything */
+static pint vcmp_never (pconstpointer a, pconstpointer b) { (void) a; (void) b; return 1; }
+static pint vcmp_always (pconstpointer a, pconstpointer b) { (void) a; (void) b; return 0; }
 static pint vcmp (pconstpointer a, pconstpointer b) { return a == b ? 0 : ((uintptr_t) a < (uintptr_t) b ? -1 : 1); }
 
 static int lbuf[4096]; static int nl;
@@ -64,6 +67,10 @@ int main (int argc, char **argv) {
 				l = p_hash_table_lookup_by_value (ht, (ppointer) vmap[i], NULL); emit_list (l, 1, 1); p_list_free (l);
 				VT (",");
 				l = p_hash_table_lookup_by_value (ht, (ppointer) vmap[i], vcmp); emit_list (l, 1, 1); p_list_free (l);
+				VT (",");
+				l = p_hash_table_lookup_by_value (ht, (ppointer) vmap[i], vcmp_never); emit_list (l, 1, 1); p_list_free (l);
+				VT (",");
+				l = p_hash_table_lookup_by_value (ht, (ppointer) vmap[i], vcmp_always); emit_list (l, 1, 1); p_list_free (l);
 				VT ("]");
 			} }
 			VT ("]}"); VT_END ();
